@@ -128,6 +128,8 @@ var InstrTargets = []instr.Target{
 	{File: "pkg/flowcontrols/remote/global_flowcontrol.go", Funcs: []string{"maxInflightWrapper.SetLimit", "maxInflightWrapper.Resize", "maxInflightWrapper.resize", "maxInflightWrapper.TryAcquire", "maxInflightWrapper.Release", "tokenBucketWrapper.SetLimit", "tokenBucketWrapper.Resize", "tokenBucketWrapper.TryAcquire"}},
 	{File: "pkg/flowcontrols/limiter.go", All: true, Funcs: []string{"upstreamLimiter.Load", "upstreamLimiter.syncLocalFlowControls"}},
 	{File: "pkg/clusters/clusterinfo.go", All: true, Funcs: []string{"endpointPickStrategy.Pop", "ClusterInfo.MatchAttributes", "ClusterInfo.Sync", "ClusterInfo.syncEndpoints", "ClusterInfo.addOrUpdateEndpoint"}},
+	{File: "pkg/gateway/authentication/token/webhook/tokenreview.go", All: true},
+	{File: "pkg/gateway/authorization/webhook/subjectaccessreview.go", All: true},
 	{File: "pkg/gateway/controllers/upstream_controller.go", All: true, Funcs: []string{"UpstreamClusterController.syncUpstreamCluster", "UpstreamClusterController.AddOrUpdateForServerNames", "UpstreamClusterController.checkServerNameConflict", "UpstreamClusterController.checkUpstreamServerNameConflict", "UpstreamClusterController.DeleteForServerNames"}},
 	{File: "pkg/ratelimiter/limiter/ratelimter.go", Funcs: []string{"rateLimiter.UpdateRateLimitConditionStatus", "rateLimiter.UpstreamConditionHandler", "rateLimiter.calculateUpstreamCondition", "rateLimiter.deleteCondition",
 		"rateLimiter.leaderCheck", "rateLimiter.startLeading", "rateLimiter.stopLeading", "rateLimiter.getLimitStoreForShard", "rateLimiter.GetRateLimitCondition", "rateLimiter.DoAcquire", "rateLimiter.syncUpstreamClustersForShard"}},
@@ -210,7 +212,7 @@ func init() {
 			{World: "ilv", Profile: "c08-resize", Quick: 1500, Thor: 60000, PerProc: 250},
 			{World: "rl", Profile: "c08tb-acquire", Quick: 200, Thor: 10000, PerProc: 1, FaultFree: true},
 		},
-		Rule: "each run = one drawn workload (2-4 instance threads issuing SetState with drawn counts/request ids, removal threads, optional Resize thread) under one drawn statement-level schedule (uniform or PCT); distinct = distinct trace hash; non-trivial = at least two operations overlapped in time AND (a rollback, a removal or a stale id occurred). Profile c08tb-acquire (rl world): one real leading replica, a count-strategy token-bucket schema (qps 1..1000, burst 1-3x qps), 1-4 instances sending 20-120 Acquire RPCs with drawn asks (0, 1, around qps and burst, 8*burst+3, negative, int32 extremes; 1-3 requests per RPC) at drawn fake times (same instant, 1 ms, exactly 1/qps, ... 1 minute), limit changes through the real upstream controller; every answer is checked (0 <= grant <= ask, negative refused) and every window of grants within an epoch of unchanged limits against burst + qps*T; non-trivial = at least 5 grants and one served by a halved retry",
+		Rule: "each run = one drawn workload (2-4 instance threads issuing SetState with drawn counts/request ids, removal threads, optional Resize thread) under one drawn statement-level schedule (uniform or PCT); distinct = distinct trace hash; non-trivial = at least two operations overlapped in time AND (a rollback, a removal or a stale id occurred). Profile c08tb-acquire (rl world): one real leading replica, a count-strategy token-bucket schema (qps 1..1000, burst 1-3x qps), 1-4 instances sending 20-120 Acquire RPCs with drawn asks (0, 1, around qps and burst, 8*burst+3, negative, int32 extremes; 1-3 requests per RPC) at drawn fake times (same instant, 1 ms, exactly 1/qps, ... 1 minute), limit changes through the real upstream controller; every answer is checked (0 <= grant <= ask, negative refused) and every window of grants within an epoch of unchanged limits against burst + qps*T; non-trivial = at least 5 grants and one served by a halved retry In c08tb-acquire the schema named tb starts as (one run in three), or becomes for a while, a max-in-flight schema and then a token bucket again under the same name; grants are bounded per epoch by the bucket declared last",
 		Real: []string{"pkg/ratelimiter/store/flowcontrol (globalMaxInflight: SetState/add/Resize/DebugInfo, yield-instrumented copy of the current tree)", "c08tb-acquire: pkg/ratelimiter/limiter (DoAcquire, leader election, upstream controller), the server's handler chain, store/flowcontrol token bucket (x/time/rate on the fake clock)"},
 		Stub: []string{"instance threads (drawn reports), the cooperative scheduler"},
 		Assume: []string{
@@ -244,7 +246,7 @@ func init() {
 			{World: "ilv", Profile: "c14-rr", Quick: 3000, Thor: 100000, PerProc: 250, FaultFree: true},
 			{World: "gw", Profile: "c14h-http", Quick: 100, Thor: 5000, PerProc: 1, FaultFree: true},
 		},
-		Rule: "each run = drawn cluster (1-5 endpoints, explicit subset in drawn order or all endpoints with tape-permuted map order), 1-3 concurrent picker threads of the measured policy, 0-2 other pickers over the same endpoints (second policy, PickOne as used by authentication), 1-3 stretches with a readiness change in between, under a drawn statement-level schedule of Pop(); distinct = distinct trace hash; non-trivial = at least 4 measured picks over at least 2 endpoints. In one run in two a resync thread re-applies the cluster with an unchanged server list (identical object, another logging mode, another label) 1-3 times per stretch while the picks go on: the ready set does not change, so the windows span the re-applications. Profile c14h-http (gw world): sequential proxied requests, most of them token-authenticated (authentication picks an endpoint for every request), every window checked",
+		Rule: "each run = drawn cluster (1-5 endpoints, explicit subset in drawn order or all endpoints with tape-permuted map order), 1-3 concurrent picker threads of the measured policy, 0-2 other pickers over the same endpoints (second policy, PickOne as used by authentication), 1-3 stretches with a readiness change in between, under a drawn statement-level schedule of Pop(); distinct = distinct trace hash; non-trivial = at least 4 measured picks over at least 2 endpoints. In one run in two a resync thread re-applies the cluster with an unchanged server list (identical object, another logging mode, another label) 1-3 times per stretch while the picks go on: the ready set does not change, so the windows span the re-applications. Profile c14h-http (gw world): sequential proxied requests, most of them token-authenticated (authentication picks an endpoint for every request), every window checked One request thread in three is left alone once for 20-220 steps at a drawn statement. For policies over all endpoints a server is sometimes added between two stretches (also right after start-up): a thread applies the larger object while 2-8 unmeasured picks go on, the new endpoint then becomes ready and the next stretch (20-60 picks) is measured over the larger set",
 		Real: []string{"pkg/clusters ClusterInfo (CreateClusterInfo, Sync, MatchAttributes, PickOne, endpointPickStrategy.Pop yield-instrumented), EndpointInfo status"},
 		Stub: []string{"picker threads; endpoint health set directly through EndpointInfo.UpdateStatus (no probes in this world)"},
 		Assume: []string{
@@ -263,7 +265,7 @@ func init() {
 			{World: "gw", Profile: "c06h-http", Quick: 100, Thor: 5000, PerProc: 1, FaultFree: true},
 			{World: "tb", Profile: "c06i-sameinstant", Quick: 1500, Thor: 60000, PerProc: 1},
 		},
-		Rule: "each run = drawn (qps, burst>=qps) and a drawn arrival process of 20-400 calls on the fake clock (same-instant bursts, exact k/qps gaps +-1ns, micro/milli/second pauses up to 2 minutes; reconf profile: resizes ending a stretch); every pair of admissions of a stretch is checked against burst+qps*T, every idle period against min(burst, floor(qps*t)); distinct = distinct trace hash; non-trivial = some calls admitted and some refused. Profile c06h-http (gw world): the same bounds observed through HTTP, refused <=> 429 Status and never forwarded. Profile c06i-sameinstant (bubble + cooperative scheduler): 2-6 request threads hit a freshly created token-bucket schema 1-3 times each at one fake instant, optionally with a concurrent reconfiguration, interleaved at statement granularity through GetOrDefault / TryAcquire / Sync; at most the sum of the bursts of the buckets that existed may be admitted",
+		Rule: "each run = drawn (qps, burst>=qps) and a drawn arrival process of 20-400 calls on the fake clock (same-instant bursts, exact k/qps gaps +-1ns, micro/milli/second pauses up to 2 minutes; reconf profile: resizes ending a stretch); every pair of admissions of a stretch is checked against burst+qps*T, every idle period against min(burst, floor(qps*t)); distinct = distinct trace hash; non-trivial = some calls admitted and some refused. Profile c06h-http (gw world): the same bounds observed through HTTP, refused <=> 429 Status and never forwarded. Profile c06i-sameinstant (bubble + cooperative scheduler): 2-6 request threads hit a freshly created token-bucket schema 1-3 times each at one fake instant, optionally with a concurrent reconfiguration, interleaved at statement granularity through GetOrDefault / TryAcquire / Sync; at most the sum of the bursts of the buckets that existed may be admitted The schema carries a drawn limit strategy (none, local, or globalAllocate / globalCount with a global bucket of three times the local one); the limiter runs in local mode, where the local bucket is the one that counts",
 		Real: []string{"pkg/flowcontrols UpstreamLimiter + remote.FlowControlCache/localWrapper/meterWrapper + flowcontrol.resizeableTokenBucket + client-go token bucket (golang.org/x/time/rate) reading the bubble clock"},
 		Stub: []string{"arrival process (driver), fake clock (testing/synctest)"},
 		Assume: []string{
@@ -281,7 +283,7 @@ func init() {
 			{World: "store", Profile: "c19-faults", Quick: 350, Thor: 20000, PerProc: 1},
 			{World: "rl", Profile: "c19h-handover", Quick: 120, Thor: 6000, PerProc: 1},
 		},
-		Rule: "each run = drawn shard layout, store mode (write-through / periodic with drawn period), 1-3 caller threads with drawn Save/Delete/DeleteUpstream/Flush programs over conditions of both shards, injected API outcomes at the pre/post sim point of every API call, and either a crash at a drawn step or a graceful Stop; afterwards successors of both shards Load() fault-free; distinct = distinct trace hash; non-trivial = some operation acknowledged AND (an operation failed, was in flight at the crash, or a graceful stop completed). Profile c19h-handover (rl world): two real limiter replicas with lease election over 1-3 shards and the API-backed store (write-through or 1 s periodic), 2-5 upstreams, 1-3 gateway client sets whose reports go to the leaders they discover; 15-60 steps of reports, clock advances, crash of a replica, loss/return of a replica's lease API (graceful stop of the shard), restart; write-through: every answered report is compared with the API at once; once per leadership term (1.5 s after it began, skipped if the replica's 30 s unknown-condition sweep fell into it) every persisted condition of the shard must be on the new leader's record, with the persisted quota in write-through mode; non-trivial = 3+ answered reports, a leader change and a hand-over check",
+		Rule: "each run = drawn shard layout, store mode (write-through / periodic with drawn period), 1-3 caller threads with drawn Save/Delete/DeleteUpstream/Flush programs over conditions of both shards, injected API outcomes at the pre/post sim point of every API call, and either a crash at a drawn step or a graceful Stop; afterwards successors of both shards Load() fault-free; distinct = distinct trace hash; non-trivial = some operation acknowledged AND (an operation failed, was in flight at the crash, or a graceful stop completed). Profile c19h-handover (rl world): two real limiter replicas with lease election over 1-3 shards and the API-backed store (write-through or 1 s periodic), 2-5 upstreams, 1-3 gateway client sets whose reports go to the leaders they discover; 15-60 steps of reports, clock advances, crash of a replica, loss/return of a replica's lease API (graceful stop of the shard), restart; write-through: every answered report is compared with the API at once; once per leadership term (1.5 s after it began, skipped if the replica's 30 s unknown-condition sweep fell into it) every persisted condition of the shard must be on the new leader's record, with the persisted quota in write-through mode; non-trivial = 3+ answered reports, a leader change and a hand-over check One save in four of a name of the store's own shard repeats the value last saved for that name (a report that changes nothing)",
 		Real: []string{"pkg/ratelimiter/store/k8s objectStore (Save/Delete/DeleteUpstream/Load/Flush/Stop/createOrUpdate/periodic sync; optionally yield-instrumented), pkg/ratelimiter/store/local, client-go retry/back-off on the fake clock"},
 		Stub: []string{"control-plane API for RateLimitConditions (simapi: in-memory objects with resource versions, REST-strategy status/spec separation, two sim points per call)", "caller threads"},
 		Assume: []string{
@@ -342,7 +344,7 @@ func init() {
 			{World: "gw", Profile: "c15-removal", Quick: 150, Thor: 8000, PerProc: 1, FaultFree: true},
 			{World: "gw", Profile: "c15p-preempt", Quick: 200, Thor: 8000, PerProc: 1},
 		},
-		Rule: "each run = cluster alpha (endpoints e0,e1 behind verb-distinguished policies) and bystander cluster beta; 6-12 requests in drawn phases of their life (parked in TokenReview before the pick, held at the upstream before headers, mid-stream of a chunked long-running response with drawn progress), then one drawn removal (delete the cluster, remove e0, replace e0 by a new endpoint); afterwards: victims must end at the client within 2 simulated seconds without further stimulus, the removed endpoint's server must see the cancellation, new requests get 503 / never reach the removed endpoint, bystander streams receive their next chunk, probing of the removed endpoint stops and of the others continues; distinct = distinct trace hash; non-trivial = at least one request was in flight to what was removed. Before the requests are sent alpha goes through 0-2 earlier versions in which one of its endpoints is disabled and enabled again (so that endpoints about to be removed have been through the update path, not only the create path). At the end, one run in two, something exists for an instant: a third cluster is created (and possibly updated) and deleted again, or an endpoint of alpha is added and removed again, before anything settles (both events wait for the controller at once); 13 s later the cluster must answer 503 and none of those endpoints may have been probed after 6.5 s. Profile c15p-preempt*: the same histories with preemption fuzzing (the gateway's own goroutines give up the processor at one in three statements of upstream_controller.go and clusterinfo.go; a PRNG of the run decides)",
+		Rule: "each run = cluster alpha (endpoints e0,e1 behind verb-distinguished policies) and bystander cluster beta; 6-12 requests in drawn phases of their life (parked in TokenReview before the pick, held at the upstream before headers, mid-stream of a chunked long-running response with drawn progress), then one drawn removal (delete the cluster, remove e0, replace e0 by a new endpoint); afterwards: victims must end at the client within 2 simulated seconds without further stimulus, the removed endpoint's server must see the cancellation, new requests get 503 / never reach the removed endpoint, bystander streams receive their next chunk, probing of the removed endpoint stops and of the others continues; distinct = distinct trace hash; non-trivial = at least one request was in flight to what was removed. Before the requests are sent alpha goes through 0-2 earlier versions in which one of its endpoints is disabled and enabled again (so that endpoints about to be removed have been through the update path, not only the create path). At the end, one run in two, something exists for an instant: a third cluster is created (and possibly updated) and deleted again, or an endpoint of alpha is added and removed again, before anything settles (both events wait for the controller at once); 13 s later the cluster must answer 503 and none of those endpoints may have been probed after 6.5 s. Profile c15p-preempt*: the same histories with preemption fuzzing (the gateway's own goroutines give up the processor at one in three statements of upstream_controller.go and clusterinfo.go; a PRNG of the run decides) What the client of a stream that was cut by the removal has received must be a prefix of the upstream's body",
 		Real: gwReal, Stub: gwStub, Assume: append([]string{"'promptly' is read as 2 simulated seconds; 'probing stops' as no probe later than one interval (5 s) plus 1.5 s after the removal"}, gwAssume...),
 	})
 	reg(&Check{
@@ -351,8 +353,9 @@ func init() {
 		Batches: []Batch{
 			{World: "gw", Profile: "c12-hosts", Quick: 120, Thor: 6000, PerProc: 1},
 			{World: "gw", Profile: "c12-alias", Quick: 80, Thor: 4000, PerProc: 1},
+			{World: "gw", Profile: "c12p-preempt", Quick: 200, Thor: 8000, PerProc: 1},
 		},
-		Rule: "each run = 2-3 clusters whose stubs map the same tokens to different users and answer the same impersonation SAR differently, drawn cache TTLs (0 / 2 s / default), 15-55 steps of: request to a drawn host (names in mixed case, aliases) with a drawn token and optional impersonation, time gaps around the TTLs (0.5 s - 11 min), changes of a cluster's own answers (token remapped/revoked, SAR flipped), a cluster made unreachable and back, delete and re-create; profile c12-alias also moves a server name from one live cluster to another; the oracle attributes every forwarded identity and every review to the cluster the host resolves to; distinct = distinct trace hash; non-trivial = at least two forwarded requests with two or more clusters. One token names the same user in every cluster; in 'twin' steps that user sends the identical impersonation request to two clusters at the same time while the first cluster's SubjectAccessReview is held at a sim point. In 'churn' steps a cluster answers an impersonation question, is deleted, another cluster is created anew (deleted first if it lives) and is asked the same question as its first",
+		Rule: "each run = 2-3 clusters whose stubs map the same tokens to different users and answer the same impersonation SAR differently, drawn cache TTLs (0 / 2 s / default), 15-55 steps of: request to a drawn host (names in mixed case, aliases) with a drawn token and optional impersonation, time gaps around the TTLs (0.5 s - 11 min), changes of a cluster's own answers (token remapped/revoked, SAR flipped), a cluster made unreachable and back, delete and re-create; profile c12-alias also moves a server name from one live cluster to another; the oracle attributes every forwarded identity and every review to the cluster the host resolves to; distinct = distinct trace hash; non-trivial = at least two forwarded requests with two or more clusters. One token names the same user in every cluster; in 'twin' steps that user sends the identical impersonation request to two clusters at the same time while the first cluster's SubjectAccessReview is held at a sim point. In 'churn' steps a cluster answers an impersonation question, is deleted, another cluster is created anew (deleted first if it lives) and is asked the same question as its first A step sends 2-3 requests with drawn tokens to different clusters at one instant. Profile c12p-preempt: the same histories with preemption fuzzing over tokenreview.go, subjectaccessreview.go, upstream_controller.go and clusterinfo.go",
 		Real: gwReal, Stub: gwStub, Assume: append([]string{"a cached answer may be as old as the longest configured TTL plus 50 ms", "the alias-move profile goes beyond the literal quantifier (hosts are fixed there) but not beyond the statement"}, gwAssume...),
 	})
 	reg(&Check{
